@@ -315,15 +315,42 @@ func (e *ParserData) FlagsPush() {
 	e.flagsStack = append(e.flagsStack, e.Config)
 }
 
-// flagsKey 把影响语法的开关编码成一个数，用来区分记忆表
+// 影响语法的开关编码成一个数(flagsKey)，用来区分记忆表，并作为可回溯的解析状态保存在位置上
+const (
+	flagKeyEnableDiceWoD uint8 = 1 << iota
+	flagKeyEnableDiceCoC
+	flagKeyEnableDiceFate
+	flagKeyEnableDiceDoubleCross
+	flagKeyDisableStmts
+	flagKeyDisableNDice
+	flagKeyDisableBitwiseOp
+)
+
 func (e *ParserData) flagsKey() uint8 {
 	var k uint8
-	for i, b := range []bool{e.Config.EnableDiceWoD, e.Config.EnableDiceCoC, e.Config.EnableDiceFate, e.Config.EnableDiceDoubleCross, e.Config.DisableStmts, e.Config.DisableNDice, e.Config.DisableBitwiseOp} {
+	set := func(b bool, bit uint8) {
 		if b {
-			k |= 1 << uint(i)
+			k |= bit
 		}
 	}
+	set(e.Config.EnableDiceWoD, flagKeyEnableDiceWoD)
+	set(e.Config.EnableDiceCoC, flagKeyEnableDiceCoC)
+	set(e.Config.EnableDiceFate, flagKeyEnableDiceFate)
+	set(e.Config.EnableDiceDoubleCross, flagKeyEnableDiceDoubleCross)
+	set(e.Config.DisableStmts, flagKeyDisableStmts)
+	set(e.Config.DisableNDice, flagKeyDisableNDice)
+	set(e.Config.DisableBitwiseOp, flagKeyDisableBitwiseOp)
 	return k
+}
+
+func (e *ParserData) applyFlagsKey(k uint8) {
+	e.Config.EnableDiceWoD = k&flagKeyEnableDiceWoD != 0
+	e.Config.EnableDiceCoC = k&flagKeyEnableDiceCoC != 0
+	e.Config.EnableDiceFate = k&flagKeyEnableDiceFate != 0
+	e.Config.EnableDiceDoubleCross = k&flagKeyEnableDiceDoubleCross != 0
+	e.Config.DisableStmts = k&flagKeyDisableStmts != 0
+	e.Config.DisableNDice = k&flagKeyDisableNDice != 0
+	e.Config.DisableBitwiseOp = k&flagKeyDisableBitwiseOp != 0
 }
 
 func (e *ParserData) FlagsPop() {
